@@ -55,6 +55,16 @@ func (fx *FnExec) calleeContract(cc *ssa.CallCommon) (*Contract, string) {
 }
 
 func (fx *FnExec) calleeIsPure(cc *ssa.CallCommon) bool {
+	// fmt.Stringer convention: String() string only reads
+	isStringer := func(name string, sig *types.Signature) bool {
+		return name == "String" && sig.Params().Len() == 0 && sig.Results().Len() == 1 && isString(sig.Results().At(0).Type())
+	}
+	if cc.IsInvoke() && isStringer(cc.Method.Name(), cc.Method.Type().(*types.Signature)) {
+		return true
+	}
+	if fn := cc.StaticCallee(); fn != nil && isStringer(fn.Name(), fn.Signature) {
+		return true
+	}
 	if cc.IsInvoke() {
 		// methods of foreign interfaces (error.Error, fmt.Stringer...) are treated as read-only
 		if cc.Method.Pkg() == nil {
@@ -79,6 +89,12 @@ type modTarget struct {
 // calleeEnv binds the callee's parameter names to actual arguments
 func (fx *FnExec) calleeEnv(con *Contract, recv *Val, args []Val, heap, old *Heap, results []Val) *Env {
 	env := &Env{fx: fx, names: map[string]Val{}, heap: heap, old: old, results: results}
+	if con.Obj == nil {
+		env.pkg = fx.e.tpkgs[con.PkgPath]
+		if recv != nil {
+			env.names["self"] = *recv
+		}
+	}
 	if con.FuncT != nil {
 		env.pkg = fx.e.tpkgs[con.PkgPath]
 		if recv != nil {
